@@ -267,6 +267,9 @@ pub struct C12RMon {
     pub request_stale: bool,
     /// the witnessed passes with valid addresses, re-tries of the same sender collapsed into its last pass
     pub passes: Vec<(u8, u8)>,
+    /// the station was listening or idle in the ring (not holding a token, not waiting for a reply of its own)
+    /// when the last status request addressed to it was delivered: it has to answer it
+    pub expect_reply: bool,
 }
 
 impl W2State {
@@ -396,6 +399,22 @@ impl W2State {
         }
     }
 
+    /// "A station answers status requests addressed to it ... within the slot time": the (polite) requester has
+    /// waited a slot time and three polls and nothing came.
+    fn c12r_missing_reply_check(&mut self) {
+        if self.cfg.mon != W2Mon::C12R {
+            return;
+        }
+        if let Some((req, end, _, _)) = &self.c12r.last_delivery {
+            let waited = self.bus.scaled(self.now) - *end;
+            if self.c12r.expect_reply && !self.c12r.answered && !self.c12r.request_stale && *end < i64::MAX / 8 && waited > self.cfg.slot_bits as i64 * BIT {
+                let r = req.short();
+                self.c12r.expect_reply = false;
+                self.report("c12.reply.missing", format!("no reply to {r} within the slot time ({} bit times waited) although the station was listening / idle", waited / BIT));
+            }
+        }
+    }
+
     fn c12r_station_tx(&mut self, tx: &crate::bus::Tx) {
         let ts = self.cfg.ts;
         let slot = self.cfg.slot_bits as i64 * BIT;
@@ -509,6 +528,8 @@ impl W2State {
                         self.c12r.last_delivery = Some((f.clone(), end, self.station.is_in_ring(), ps));
                         self.c12r.answered = false;
                         self.c12r.request_stale = false;
+                        let st = self.station.verif_view().state;
+                        self.c12r.expect_reply = (st.starts_with("ListenToken") || st.starts_with("ActiveIdle")) && self.bus.pending(0, t_send) == 0;
                     } else if let Some((_, e, _, _)) = self.c12r.last_delivery.as_mut() {
                         // other traffic after the request: timing of a late reply is not judged
                         *e = i64::MAX / 4;
@@ -623,6 +644,10 @@ impl W2State {
                         return true;
                     }
                 }
+                self.c12r_missing_reply_check();
+                if self.dead {
+                    return true;
+                }
                 self.peer_send(t_send, &bytes, frame.as_ref());
                 let end_us = self.bus.quiet_from_us();
                 while self.now < end_us {
@@ -715,6 +740,7 @@ impl W2State {
                         return true;
                     }
                 }
+                self.c12r_missing_reply_check();
                 true
             }
             Sym::NoPoll(w) => {
